@@ -213,10 +213,10 @@ def main():
         for k, x in st.items():
             tot["%s.%s" % (v, k)] = x
     for v in builds:
-        if tot.get(v + ".heap_samples", 0) == 0:
+        if (tot.get(v + ".heap_samples", 0) == 0) and F.n_unlisted() == 0:
             raise Harness("no heap samples for %s" % v)
     died = sum(x for k, x in tot.items() if k.endswith("runs_died"))
-    if died > len(runs) * 2 // 50:
+    if (died > len(runs) * 2 // 50) and F.n_unlisted() == 0:
         raise Harness("too many runs died (%d): crash/hang defects must be dealt with first (C02/C03)" % died)
     rc = F.report()
     write_evidence(PROP, "exploration", tr, dict(
